@@ -10,33 +10,35 @@ open CfbVerif.Phys CfbVerif.Dir CfbVerif.Drv CfbVerif.Drv.Api
 structure St where
   ps : PState
   live : Bool
+  /-- `--damaged`: the states come from damaged images, where `MiniFit` need not hold -/
+  fit : Bool := true
 
 def showList (l : List Nat) : String := if l.isEmpty then "-" else ",".intercalate (l.map toString)
 
-def tail (ps : PState) (status : PhysStatus) : String :=
+def tail (ps : PState) (status : PhysStatus) (fit : Bool := true) : String :=
   match status with
   | .failed w => s!"PHYSFAIL {w}"
   | .fine =>
     let img := ps.image
     let p := ps.p
     -- the hypothesis `MiniFit` of `C02_reopens`, evaluated on every state the replay reaches
-    if !miniFitB p then "PHYSFAIL the model state violates MiniFit (MiniFAT not trimmed / beyond its chain / beyond the mini stream)" else
+    if fit && !miniFitB p then "PHYSFAIL the model state violates MiniFit (MiniFAT not trimmed / beyond its chain / beyond the mini stream)" else
     s!"P {img.size} {fnv64 img} | C {p.numSectors} {p.fat.size} {showList p.free} {p.miniFat.size} {showList p.freeMini} {p.dirLen} {p.miniFatStart} {p.rootStart} {p.rootLen}"
 
 def stepLine (st : St) (line : String) : IO (St × String) := do
   match words line with
   | ["create", v] =>
     let ps := PState.create (v == "4") CfbVerif.Gen.DEFAULT_STREAM_MAX_BUFFER_SIZE
-    pure ({ ps := ps, live := true }, "ok | " ++ tail ps .fine)
+    pure ({ st with ps := ps, live := true }, "ok | " ++ tail ps .fine st.fit)
   | ["create", v, mb, _backend] =>
     -- a history that names its stream buffer size (`-` = default) and how its underlying file splits transfers
     let ps := PState.create (v == "4") (mb.toNat?.getD CfbVerif.Gen.DEFAULT_STREAM_MAX_BUFFER_SIZE)
-    pure ({ ps := ps, live := true }, "ok | " ++ tail ps .fine)
+    pure ({ st with ps := ps, live := true }, "ok | " ++ tail ps .fine st.fit)
   | ["load", path] =>
     -- start from a file somebody else wrote (C04)
     let img ← IO.FS.readBinFile path
     match ofImage img CfbVerif.Gen.DEFAULT_STREAM_MAX_BUFFER_SIZE with
-    | some ps => pure ({ ps := ps, live := true }, "ok | " ++ tail ps .fine)
+    | some ps => pure ({ st with ps := ps, live := true }, "ok | " ++ tail ps .fine st.fit)
     | none => pure ({ st with live := false }, "unloadable | -")
   | ["image", path] =>
     IO.FS.writeBinFile path st.ps.image
@@ -54,7 +56,7 @@ def stepLine (st : St) (line : String) : IO (St × String) := do
     match hop? with
     | some (some hop) =>
       let (ps', o, status) := pstep st.ps hop
-      pure ({ st with ps := ps' }, showHOut o ++ " | " ++ tail ps' status)
+      pure ({ st with ps := ps' }, showHOut o ++ " | " ++ tail ps' status st.fit)
     | some none => pure (st, "unrepresentable | " ++ tail st.ps .fine)
     | none => pure (st, "bad-op | -")
 
@@ -80,7 +82,7 @@ def main (args : List String) : IO Unit := do
   let spec ← match args with
     | ["--spec", path] => some <$> IO.FS.Handle.mk path .write
     | _ => pure none
-  loop hin hout spec { ps := PState.create false 0, live := false }
+  loop hin hout spec { ps := PState.create false 0, live := false, fit := !args.contains "--damaged" }
   hout.flush
 
 /-- `driver speccheck`: one image path per input line -/
